@@ -226,6 +226,8 @@ package proto
 //@   modifies b.Buf
 //@   ensures appendOnly(b, len(v)) && forall j in 0..len(v) :: b.Buf[old(len(b.Buf)) + j] == v[j]
 //@   ensures uvStable(b) {varint-images-preserved}
+//@   ensures forall i :: trigger(arrayof(b.Buf)[i], offset(b.Buf) + old(len(b.Buf)) <= i && i < offset(b.Buf) + old(len(b.Buf)) + len(v) ==> arrayof(b.Buf)[i] == arrayof(v)[i - offset(b.Buf) - old(len(b.Buf)) + offset(v)]) {appended-bytes-by-absolute-index}
+//@   ensures forall P, x :: trigger(uvAt(arrayof(v), P, x), uvAt(arrayof(v), P, x) && offset(v) <= P && P + uvsize(x) <= offset(v) + len(v) ==> uvAt(arrayof(b.Buf), offset(b.Buf) + old(len(b.Buf)) + (P - offset(v)), x)) {varint-images-carried-over}
 
 // ---------------------------------------------------------------------------
 // Reader primitives, byte level (C01, C06, C07, C08, C17).
